@@ -284,6 +284,13 @@ type env struct {
 	rowParts map[types.Object]map[string][]Part  // loop variable of an unrolled table → text fields already evaluated where the table was written
 	tabs     map[types.Object][]tableRow          // slice-typed parameter or loop variable → the table of lines it holds
 	tabLists map[types.Object][][]tableRow        // parameter holding several such tables (blocks ...[]codeLine)
+	posAlias map[types.Object]posRef              // Position parameter of a bookkeeping helper evaluated in place → the caller's r.From / r.To
+}
+
+// posRef: the From or To of a range variable of the caller.
+type posRef struct {
+	src   types.Object
+	field string
 }
 
 type litVal struct {
@@ -292,7 +299,7 @@ type litVal struct {
 }
 
 func newEnv() *env {
-	return &env{vals: map[types.Object][]Part{}, genvars: map[types.Object]bool{}, rows: map[types.Object]map[string]ast.Expr{}, alias: map[types.Object]string{}, fvals: map[types.Object][]ast.Expr{}, flits: map[types.Object]*litVal{}, galias: map[types.Object]Part{}, bools: map[types.Object]bool{}, rowParts: map[types.Object]map[string][]Part{}, tabs: map[types.Object][]tableRow{}, tabLists: map[types.Object][][]tableRow{}}
+	return &env{vals: map[types.Object][]Part{}, genvars: map[types.Object]bool{}, rows: map[types.Object]map[string]ast.Expr{}, alias: map[types.Object]string{}, fvals: map[types.Object][]ast.Expr{}, flits: map[types.Object]*litVal{}, galias: map[types.Object]Part{}, bools: map[types.Object]bool{}, rowParts: map[types.Object]map[string][]Part{}, tabs: map[types.Object][]tableRow{}, tabLists: map[types.Object][][]tableRow{}, posAlias: map[types.Object]posRef{}}
 }
 func (e *env) clone() *env {
 	n := newEnv()
@@ -307,6 +314,9 @@ func (e *env) clone() *env {
 	}
 	for k, v := range e.tabLists {
 		n.tabLists[k] = v
+	}
+	for k, v := range e.posAlias {
+		n.posAlias[k] = v
 	}
 	for k, v := range e.alias {
 		n.alias[k] = v
@@ -477,6 +487,8 @@ var mergeLossy int
 type gemEval struct {
 	retText   []Part        // the code text the helper last evaluated in place returned as its first (string) result, when known
 	retCall   *ast.CallExpr // … and the call it was evaluated for
+	retLit    *litVal       // the closure a bookkeeping helper evaluated in place returned (endSymbol := g.beginSymbol(…))
+	retLitFor *ast.CallExpr
 	g         *GEM
 	gf        *GFunc
 	depth     int
@@ -559,7 +571,7 @@ func (ev *gemEval) branchesOf(s ast.Stmt, e *env) (pre []Node, alt *Alt, envs []
 	var ifs *ast.IfStmt
 	switch x := s.(type) {
 	case *ast.IfStmt:
-		if x.Else == nil || ev.isErrCheck(x) {
+		if ev.isErrCheck(x) {
 			return nil, nil, nil, false
 		}
 		if _, known := ev.constCond(x.Cond, e); known {
@@ -595,8 +607,14 @@ func (ev *gemEval) branchesOf(s ast.Stmt, e *env) (pre []Node, alt *Alt, envs []
 		a.Branches = append(a.Branches, ev.block(ifs.Body.List, e1))
 		a.Labels = append(a.Labels, "if "+types.ExprString(ifs.Cond))
 		e2 := e.clone()
-		a.Branches = append(a.Branches, ev.stmt(ifs.Else, e2))
-		a.Labels = append(a.Labels, "else")
+		if ifs.Else != nil {
+			a.Branches = append(a.Branches, ev.stmt(ifs.Else, e2))
+			a.Labels = append(a.Labels, "else")
+		} else {
+			// (no else: the variable keeps the text it had)
+			a.Branches = append(a.Branches, nil)
+			a.Labels = append(a.Labels, "not "+types.ExprString(ifs.Cond))
+		}
 		return pre, &a, []*env{e1, e2}, true
 	}
 	sw := s.(*ast.SwitchStmt)
@@ -913,6 +931,9 @@ func (ev *gemEval) bind(obj types.Object, rhs ast.Expr, e *env) {
 		if lit, ok := ast.Unparen(rhs).(*ast.FuncLit); ok {
 			e.flits[obj] = &litVal{lit, e.clone()}
 		}
+		if rc, ok := ast.Unparen(rhs).(*ast.CallExpr); ok && ev.retLit != nil && ev.retLitFor == rc {
+			e.flits[obj] = ev.retLit
+		}
 		delete(e.fvals, obj)
 		if fv := ev.funcValues(rhs, e, 0); fv != nil {
 			e.fvals[obj] = fv
@@ -938,6 +959,57 @@ func (ev *gemEval) foldTextFunc(fn *types.Func, args []ast.Expr, e *env) ([]Part
 		}
 		lit := &ast.FuncLit{Type: fd.Type, Body: fd.Body}
 		return ev.foldLit(&litVal{lit, newEnv()}, args, e), true
+	}
+	return nil, false
+}
+
+// foldTextMethod: a method of the package whose parameters are strings and whose body is a single
+// `return <string expression>`, applied to a receiver that is a descriptor known here: the receiver's fields are the
+// descriptor's.
+func (ev *gemEval) foldTextMethod(fn *types.Func, recv ast.Expr, args []ast.Expr, e *env) ([]Part, bool) {
+	info := ev.info()
+	sig, _ := fn.Type().(*types.Signature)
+	if sig == nil || sig.Recv() == nil || ev.depth > 4 || sig.Results().Len() != 1 || !isStringType(sig.Results().At(0).Type()) {
+		return nil, false
+	}
+	rid, ok := ast.Unparen(recv).(*ast.Ident)
+	if !ok {
+		return nil, false
+	}
+	row, known := e.rows[info.ObjectOf(rid)]
+	if !known {
+		return nil, false
+	}
+	for _, fd := range allFuncDecls(ev.g.pkg) {
+		if info.Defs[fd.Name] != types.Object(fn) || fd.Body == nil || len(fd.Body.List) != 1 || fd.Recv == nil || len(fd.Recv.List) != 1 || len(fd.Recv.List[0].Names) != 1 {
+			continue
+		}
+		ret, ok := fd.Body.List[0].(*ast.ReturnStmt)
+		if !ok || len(ret.Results) != 1 {
+			return nil, false
+		}
+		e3 := newEnv()
+		robj := info.Defs[fd.Recv.List[0].Names[0]]
+		e3.rows[robj] = row
+		if rp, ok := e.rowParts[info.ObjectOf(rid)]; ok {
+			e3.rowParts[robj] = rp
+		}
+		k := 0
+		for _, prm := range fd.Type.Params.List {
+			for _, nm := range prm.Names {
+				if k >= len(args) {
+					return nil, false
+				}
+				if ob := info.Defs[nm]; ob != nil && isStringType(ob.Type()) {
+					e3.vals[ob] = ev.fold(args[k], e)
+				}
+				k++
+			}
+		}
+		if k != len(args) {
+			return nil, false
+		}
+		return ev.fold(ret.Results[0], e3), true
 	}
 	return nil, false
 }
@@ -1338,6 +1410,11 @@ func (ev *gemEval) assign(s *ast.AssignStmt, e *env) []Node {
 										out = append(out, RangeSet{Tgt: obj, Field: kid.Name, Src: ev.info().ObjectOf(rid), Pos: s.Pos()})
 									}
 								}
+								if pid, ok := ast.Unparen(kv.Value).(*ast.Ident); ok {
+									if pr, ok := e.posAlias[ev.info().ObjectOf(pid)]; ok && pr.field == kid.Name {
+										out = append(out, RangeSet{Tgt: obj, Field: kid.Name, Src: pr.src, Pos: s.Pos()})
+									}
+								}
 							}
 						}
 					}
@@ -1349,6 +1426,11 @@ func (ev *gemEval) assign(s *ast.AssignStmt, e *env) []Node {
 						if rs, ok := s.Rhs[i].(*ast.SelectorExpr); ok && rs.Sel.Name == l.Sel.Name {
 							if rid, ok := rs.X.(*ast.Ident); ok {
 								out = append(out, RangeSet{Tgt: ev.info().ObjectOf(lid), Field: l.Sel.Name, Src: ev.info().ObjectOf(rid), Pos: s.Pos()})
+							}
+						}
+						if pid, ok := ast.Unparen(s.Rhs[i]).(*ast.Ident); ok {
+							if pr, ok := e.posAlias[ev.info().ObjectOf(pid)]; ok && pr.field == l.Sel.Name {
+								out = append(out, RangeSet{Tgt: ev.info().ObjectOf(lid), Field: l.Sel.Name, Src: pr.src, Pos: s.Pos()})
 							}
 						}
 					}
@@ -1440,6 +1522,18 @@ func (ev *gemEval) call(call *ast.CallExpr, e *env, onEmit func(*Emit)) []Node {
 	info := ev.info()
 	// a call through a function-typed local (or of what a selector function returned): one alternative per function it may hold
 	if calleeOf(info, call) == nil {
+		if f, ok := ast.Unparen(call.Fun).(*ast.Ident); ok {
+			if lv, ok := e.flits[info.ObjectOf(f)]; ok && touchesSourceMap(info, lv.lit.Body) && ev.depth < 4 {
+				e3 := lv.env.clone()
+				if ev.bindBookkeeping(lv.lit.Type, call, e, e3) {
+					sub := &gemEval{g: ev.g, gf: ev.gf, depth: ev.depth + 1}
+					if body := sub.block(lv.lit.Body.List, e3); len(body) > 0 {
+						return []Node{Inline{Name: f.Name, Body: body, Pos: call.Pos()}}
+					}
+					return nil
+				}
+			}
+		}
 		var cands []ast.Expr
 		switch f := ast.Unparen(call.Fun).(type) {
 		case *ast.Ident:
@@ -1536,6 +1630,11 @@ func (ev *gemEval) call(call *ast.CallExpr, e *env, onEmit func(*Emit)) []Node {
 		return []Node{ma}
 	case pkgParser + ".(SourceMap).AddSymbolRange":
 		sa := SymAdd{SrcStr: types.ExprString(call.Args[0]), Pos: call.Pos()}
+		if id, ok := ast.Unparen(call.Args[0]).(*ast.Ident); ok {
+			if a, ok := e.alias[info.ObjectOf(id)]; ok {
+				sa.SrcStr = a
+			}
+		}
 		if id, ok := ast.Unparen(call.Args[1]).(*ast.Ident); ok {
 			sa.Tgt = info.ObjectOf(id)
 		}
@@ -1671,7 +1770,87 @@ func (ev *gemEval) call(call *ast.CallExpr, e *env, onEmit func(*Emit)) []Node {
 		}
 		return append(out, CallW{Fn: fn, Name: cg.Name, Args: call.Args, ArgText: argText, Pos: call.Pos()})
 	}
+	// a helper of the package that emits nothing but keeps the books (registers a range with the source map, itself or
+	// in the closure it returns): evaluated in place, its position parameters standing for the caller's r.From / r.To
+	if fn.Pkg() == ev.g.pkg.Types && ev.depth < 4 {
+		for _, fd := range allFuncDecls(ev.g.pkg) {
+			if info.Defs[fd.Name] != types.Object(fn) || fd.Body == nil || !touchesSourceMap(info, fd.Body) {
+				continue
+			}
+			e2 := newEnv()
+			if !ev.bindBookkeeping(fd.Type, call, e, e2) {
+				return nil
+			}
+			sub := &gemEval{g: ev.g, gf: ev.gf, depth: ev.depth + 1}
+			body := sub.block(fd.Body.List, e2)
+			// the closure it returns (its last statement; a single result)
+			if n := len(fd.Body.List); n > 0 {
+				if ret, ok := fd.Body.List[n-1].(*ast.ReturnStmt); ok && len(ret.Results) == 1 {
+					if lit, ok := ast.Unparen(ret.Results[0]).(*ast.FuncLit); ok {
+						ev.retLit, ev.retLitFor = &litVal{lit, e2}, call
+					}
+				}
+			}
+			if len(body) == 0 {
+				return nil
+			}
+			return []Node{Inline{Fn: fn, Name: fn.Name(), Body: body, Pos: call.Pos()}}
+		}
+	}
 	return nil
+}
+
+// touchesSourceMap: n (function literals included) registers something with the source map.
+func touchesSourceMap(info *types.Info, n ast.Node) bool {
+	found := false
+	ast.Inspect(n, func(m ast.Node) bool {
+		if call, ok := m.(*ast.CallExpr); ok {
+			if fn := calleeOf(info, call); fn != nil && strings.HasPrefix(fullName(fn), pkgParser+".(SourceMap).Add") {
+				found = true
+			}
+		}
+		return !found
+	})
+	return found
+}
+
+// bindBookkeeping binds the parameters of a bookkeeping helper (or closure) evaluated in place: a Position parameter
+// given r.From / r.To (or a parameter already standing for one) stands for it; a Range or Expression parameter is
+// known by the caller's text. false: the arguments do not line up.
+func (ev *gemEval) bindBookkeeping(ft *ast.FuncType, call *ast.CallExpr, e, e2 *env) bool {
+	info := ev.info()
+	i := 0
+	for _, prm := range ft.Params.List {
+		if _, variadic := prm.Type.(*ast.Ellipsis); variadic {
+			return false
+		}
+		for _, nm := range prm.Names {
+			if i >= len(call.Args) {
+				return false
+			}
+			obj := info.Defs[nm]
+			switch a := ast.Unparen(call.Args[i]).(type) {
+			case *ast.SelectorExpr:
+				if xid, ok := ast.Unparen(a.X).(*ast.Ident); ok && (a.Sel.Name == "From" || a.Sel.Name == "To") {
+					if _, isField := info.Selections[a]; isField {
+						e2.posAlias[obj] = posRef{info.ObjectOf(xid), a.Sel.Name}
+					}
+				}
+				e2.alias[obj] = types.ExprString(a)
+			case *ast.Ident:
+				if pr, ok := e.posAlias[info.ObjectOf(a)]; ok {
+					e2.posAlias[obj] = pr
+				}
+				if al, ok := e.alias[info.ObjectOf(a)]; ok {
+					e2.alias[obj] = al
+				} else {
+					e2.alias[obj] = a.Name
+				}
+			}
+			i++
+		}
+	}
+	return i == len(call.Args)
 }
 
 // fold evaluates a string expression to parts; adjacent constant parts are one constant.
@@ -1721,6 +1900,12 @@ func (ev *gemEval) fold1(x ast.Expr, e *env) []Part {
 		if tf := calleeOf(info, x); tf != nil && tf.Pkg() == ev.g.pkg.Types {
 			if parts, ok := ev.foldTextFunc(tf, x.Args, e); ok {
 				return parts
+			}
+			// a method of a descriptor that gives text made from its fields: site.returnStatement()
+			if se, ok := ast.Unparen(x.Fun).(*ast.SelectorExpr); ok {
+				if parts, ok := ev.foldTextMethod(tf, se.X, x.Args, e); ok {
+					return parts
+				}
 			}
 		}
 		// … or held by a field of a descriptor: form.rendered(vn)
